@@ -1019,3 +1019,55 @@ func lemmaC11_sql_AES128Key(k AES128Key) {
 	verifAssert(err2 == nil, "scan")
 	verifAssert(m == k, "equal")
 }
+
+// ---------------------------------------------------------------------------
+// C03 / C05: the frame-level FOpts encryption picks the counter variant of LoRaWAN 1.1 §4.3.1.1:
+// AFCntDown exactly for downlinks with FPort > 0 (whatever the FRMPayload), NFCntDown / FCntUp otherwise
+// ---------------------------------------------------------------------------
+
+func lemmaC03_fopts_variant(down, hasPort bool, port uint8, fopts, frm []byte, key AES128Key, devAddr DevAddr, fcnt uint32) {
+	if len(fopts) == 0 || len(fopts) > 15 {
+		return
+	}
+	mt := UnconfirmedDataUp
+	if down {
+		mt = UnconfirmedDataDown
+	}
+	plain := make([]byte, len(fopts))
+	copy(plain, fopts)
+	mp := &MACPayload{FHDR: FHDR{DevAddr: devAddr, FCnt: fcnt, FOpts: []Payload{&DataPayload{Bytes: fopts}}}}
+	if hasPort {
+		pt := port
+		mp.FPort = &pt
+	}
+	if len(frm) > 0 {
+		mp.FRMPayload = []Payload{&DataPayload{Bytes: frm}}
+	}
+	p := PHYPayload{MHDR: MHDR{MType: mt, Major: LoRaWANR1}, MACPayload: mp}
+	err := p.EncryptFOpts(key)
+	verifAssert(err == nil, "encrypts")
+	if err != nil {
+		return
+	}
+	wantVariant := false
+	if down {
+		if hasPort {
+			if port > 0 {
+				wantVariant = true
+			}
+		}
+	}
+	want, err2 := EncryptFOpts(key, wantVariant, !down, devAddr, fcnt, plain)
+	if err2 != nil {
+		return
+	}
+	verifAssert(len(mp.FHDR.FOpts) == 1, "one-element")
+	if len(mp.FHDR.FOpts) != 1 {
+		return
+	}
+	d, ok := mp.FHDR.FOpts[0].(*DataPayload)
+	verifAssert(ok, "type")
+	if ok {
+		verifAssert(bytesEqualIdx(d.Bytes, want), "spec-variant")
+	}
+}
